@@ -1,64 +1,73 @@
 (* KV.C18.Props — property theorems only.
    Model: KV.C18.Model (DynGroup::apply_dyngroup_change / post_create / post_modify and refint's
-   post_delete on dynmember). `cur` = the pinned tree, `fixedv` = the tree with fixes/C18.patch. *)
+   post_delete on dynmember). `tree` = `fixedv` = /repo since the commit "fix: dynamic groups ...";
+   `cur` = the tree before it. *)
 From Coq Require Import List NArith Bool.
 Import ListNotations.
 Require Import KV.Base.Filter KV.C18.Model KV.C18.Proofs.
 Open Scope N_scope.
 
-(* THE PROPERTY, full strength: from any well-formed state in which every live dynamic group holds
-   exactly the live entries that satisfy its filter, after ANY sequence of operations (creates,
-   modifies, deletes of candidates and of dynamic groups, in batches, with any filters; failed
-   operations are rolled back) every live dynamic group again holds exactly the live entries that
-   satisfy its current filter. *)
-Definition C18_full_statement : Prop :=
-  forall (s : st) (ops : list op), Inv s -> DynExact (run cur s ops).
+(* THE PROPERTY, full strength, for a variant v of the code: from any well-formed state in which
+   every live dynamic group holds exactly the live entries that satisfy its filter, after ANY
+   sequence of operations (creates, modifies, deletes of candidates and of dynamic groups, in
+   batches, with any AND/OR/NOT filter trees; failed operations are rolled back) every live dynamic
+   group again holds exactly the live entries that satisfy its CURRENT filter. *)
+Definition C18_full_statement (v : variant) : Prop :=
+  forall (s : st) (ops : list op), Inv s -> DynExact (run v s ops).
 
-(* The pinned tree does NOT satisfy it (witness w_ops_k1: a recycled entry re-enters a group that
-   is re-evaluated; confirmed on the real server, harness/src/bin/c18.rs --probe). *)
-Theorem C18_refuted : ~ C18_full_statement.
-Proof. exact full_refuted. Qed.
+(* It holds for the tree: unbounded states, histories, batches and filters; no side condition. *)
+Theorem C18_exact : C18_full_statement tree.
+Proof. intros s ops I. apply (run_inv tree ops s I). apply fixed_never_known. Qed.
 
-(* What the pinned tree does guarantee: the invariant (well-formedness + exact membership) is
-   preserved by every operation that is outside the two known-finding classes
-     K1 a group is re-evaluated while a recycled entry satisfies its filter,
-     K2 a dynamic-group ENTRY is created/modified and its match against ANOTHER live group's
-        filter differs from its membership there,
-   for unbounded states, batches and filter trees ... *)
-Theorem C18_inv_step_partial : forall (s : st) (o : op) (s' : st),
-  Inv s -> step cur s o = Some s' -> known_step cur s o = false -> Inv s'.
-Proof. exact (step_inv cur). Qed.
+(* One operation preserves the invariant (well-formedness + exact membership) ... *)
+Theorem C18_inv_step : forall (s : st) (o : op) (s' : st), Inv s -> step tree s o = Some s' -> Inv s'.
+Proof. intros s o s' I H. apply (step_inv tree s o s' I H). destruct o; reflexivity. Qed.
 
-(* ... and therefore by every history none of whose steps falls in a known class. Missing for the
-   full statement: exactly the histories with a K1 or K2 step (C18_refuted shows they do fail). *)
-Theorem C18_reachable_partial : forall (ops : list op) (s : st),
-  Inv s -> run_known cur s ops = false -> Inv (run cur s ops).
-Proof. exact (run_inv cur). Qed.
-
-(* With fixes/C18.patch (re-evaluation sees live entries only; dynamic-group entries are tested
-   against the cached filters like any other entry) the FULL statement holds: no known class. *)
-Theorem C18_fixed_exact : forall (ops : list op) (s : st), Inv s -> Inv (run fixedv s ops).
+(* ... hence every reachable state satisfies it. *)
+Theorem C18_reachable : forall (ops : list op) (s : st), Inv s -> Inv (run tree s ops).
 Proof. intros ops s I. apply run_inv; [exact I | apply fixed_never_known]. Qed.
 
-(* Well-formedness (distinct uuids, every live group cached with its current filter) never
-   depends on the known classes. *)
-Theorem C18_wf_always : forall (v : variant) (ops : list op) (s : st), WF s -> WF (run v s ops).
-Proof. exact run_wf. Qed.
-
 (* Membership follows the group's filter: an operation that modifies a dynamic group (new filter,
-   or direct tampering with dynmember, from ANY prior state — exactness is not assumed) leaves it
-   with exactly the live entries satisfying its new filter (pinned tree: unless K1). *)
-Theorem C18_filter_change_reevaluates : forall (v : variant) (s : st) (ts : list target) (s' : st) (t : target) (f : filt),
-  WF s -> modify v s ts = Some s' -> In t ts -> tfilt t = Some f ->
-  (live_only v = false -> k1 s ts = false) ->
+   or direct tampering with dynmember) from ANY prior state — exactness is not assumed — leaves it
+   with exactly the live entries satisfying its new filter. *)
+Theorem C18_filter_change_reevaluates : forall (s : st) (ts : list target) (s' : st) (t : target) (f : filt),
+  WF s -> modify tree s ts = Some s' -> In t ts -> tfilt t = Some f ->
   exists g', In g' (grps s') /\ gid g' = tid t /\ gf g' = f /\
     forall x, In x (gdm g') <-> exists u, In (x, u) (ents s') /\ hit f u = true.
-Proof. exact modify_reeval_exact. Qed.
+Proof.
+  intros s ts s' t f W H Ht TF. apply (modify_reeval_exact tree s ts s' t f W H Ht TF). intros L. discriminate L.
+Qed.
 
-(* Deleted (recycled) entries leave every dynamic group, in every state and variant. *)
+(* Deleted (recycled) entries leave every dynamic group, in every state. *)
 Theorem C18_deleted_leave : forall (s : st) (ids : list N) (s' : st) (g' : grp) (x : N),
   delete s ids = Some s' -> In g' (grps s') -> In x ids -> ~ In x (gdm g').
 Proof. exact delete_leaves. Qed.
+
+(* Well-formedness (distinct uuids, every live group cached with its current filter) is kept by
+   every variant. *)
+Theorem C18_wf_always : forall (v : variant) (ops : list op) (s : st), WF s -> WF (run v s ops).
+Proof. exact run_wf. Qed.
+
+(* ---- the tree BEFORE the fix commit (documentation of the defects this check found) *)
+
+(* The full statement was false: a recycled entry re-entered any group that was re-evaluated
+   (K1, witness w_ops_k1) ... *)
+Theorem C18_prefix_refuted : ~ C18_full_statement cur.
+Proof. exact full_refuted. Qed.
+(* ... and repairing only that would not have been enough: an entry that is itself a dynamic group
+   was never tested against the other groups' filters (K2, witness w_ops_k2). *)
+Theorem C18_prefix_recfixed_refuted : ~ C18_full_statement recfixed.
+Proof. exact recfixed_refuted. Qed.
+(* For EVERY variant the invariant is preserved by the steps outside that variant's classes K1/K2
+   (for `tree` both classes are empty, which is how C18_inv_step is obtained). *)
+Theorem C18_prefix_inv_step_partial : forall (v : variant) (s : st) (o : op) (s' : st),
+  Inv s -> step v s o = Some s' -> known_step v s o = false -> Inv s'.
+Proof. exact step_inv. Qed.
+Theorem C18_prefix_reachable_partial : forall (v : variant) (ops : list op) (s : st),
+  Inv s -> run_known v s ops = false -> Inv (run v s ops).
+Proof. exact run_inv. Qed.
+
+(* ---- the run-time tie *)
 
 (* The executable predicate used on the implementation's dumps means exact membership. *)
 Theorem C18_pcheck_sound : forall (init : obs) (steps : list (op * obs)),
@@ -66,10 +75,9 @@ Theorem C18_pcheck_sound : forall (init : obs) (steps : list (op * obs)),
   DynExact (st_of init) /\ forall o ob, In (o, ob) steps -> DynExact (st_of ob).
 Proof. exact pcheck_sound. Qed.
 
-(* Soundness of the run-time tie: if the real server's dumps agree with the model's replay, no
-   step is in a known class and the initial directory is exact, then every dump of the real
-   server is exact. *)
+(* If the real server's dumps agree with the model's replay and the initial directory is exact,
+   then every dump of the real server is exact: zero disagreements transfer C18_exact to every
+   observed history. *)
 Theorem C18_agree_implies_property : forall c : case,
-  agree c = true -> known c = false ->
-  match c with CHist init _ => obs_exact init = true end -> pcheck c = true.
+  agree c = true -> match c with CHist init _ => obs_exact init = true end -> pcheck c = true.
 Proof. exact agree_pcheck. Qed.
